@@ -416,7 +416,9 @@ func (p *parser) parseASCII(minLength, maxLength int) (item ast.ItemNode, ok boo
 	for _, t := range tokens {
 		switch t.typ {
 		case tokenTypeQuotedString:
-			val, _ := strconv.Unquote(t.val)
+			// the text between the double quotes is taken literally;
+			// SML has no escape sequences
+			val := t.val[1 : len(t.val)-1]
 			for _, r := range val {
 				if r > unicode.MaxASCII {
 					val = ""
